@@ -69,10 +69,17 @@ class Run(object):
         """A rule instance count below what was confirmed by hand means the
         matcher went blind: fail closed."""
         self.counters["%s.%s" % (rule, what)] = found
-        if found < minimum:
+        if found == 0:
             raise AnalysisError(
-                "%s: only %d %s found, expected at least %d (rule would pass "
-                "vacuously)" % (rule, found, what, minimum))
+                "%s: no %s found, expected at least %d (rule would pass "
+                "vacuously)" % (rule, what, minimum))
+        if found < minimum:
+            # fewer instances than were confirmed by hand: the rule cannot
+            # claim the clause for this tree, but the remaining rules still run
+            self.undecided(rule, "floor:%s" % what,
+                           "only %d %s found, expected at least %d (the rule "
+                           "would cover less than it did on the reference "
+                           "tree)" % (found, what, minimum))
 
     def require(self, cond, message):
         if not cond:
